@@ -26,6 +26,7 @@ import LispModel.Proofs.EvalLaws
 import LispModel.Spec.BigStep
 import LispModel.Proofs.BigStepRefine
 import LispModel.Proofs.EvalStoreWF
+import LispModel.Proofs.SeedLaws
 namespace LispModel.Props.C01
 open LispModel LispModel.Core
 open LispModel.Proofs.EvalBasic (TraceSuffix)
@@ -998,5 +999,35 @@ example : agreeOn
 end D5
 
 /-! ### END D5 -/
+
+/-! ## laws added after the seeded changes of rounds 3–5 -/
+open LispModel.Proofs.SeedLaws (Sy Ls Nm runTop okIs traceEq failed)
+
+/-- the operator is evaluated BEFORE the operands: a call form `(h a₁ … aₙ)` whose head `h` evaluates with
+    an error returns that error in the state reached by evaluating `h` ALONE — no operand is evaluated -/
+theorem operator_before_operands (hc : st.cancelAt = none) (hs : st.stepper = none) {h : Val}
+    (args : List Val) (hm : HeadNotMacro st env h) (hsf : a0sym h ∉ specialForms) {e : Err} {st1 : State}
+    (hh : eval F (tick st) env h (d+1) = (.err e, st1)) :
+    evalLoop (F+2) st env (.list (h :: args) pos) d = (.err e, st1) :=
+  Proofs.SeedLaws.C01.operator_before_operands hc hs args hm hsf hh
+
+/-- in particular an unbound head symbol: its "not found" error after the two polls of the call form and
+    of the symbol, whatever the operands are -/
+theorem unbound_operator_before_operands (hc : st.cancelAt = none) (hs : st.stepper = none) {s : String}
+    (p : Option Pos) (args : List Val) (hsf : s ∉ specialForms) (hu : st.get env s = none) :
+    evalLoop (F+5) st env (.list (.sym s p :: args) pos) d =
+      (.err (.lisp (.goerr ("symbol '" ++ s ++ "' not found")) p), tick (tick st)) :=
+  Proofs.SeedLaws.C01.unbound_operator_before_operands hc hs p args hsf hu
+
+/-- `((do (trace! 1) +) (trace! 2) (trace! 3))` ⇒ 5 with the effects 1, 2, 3 in this order -/
+theorem operator_effects_first :
+    (let r := runTop (Ls [Ls [Sy "do", Ls [Sy "trace!", Nm 1], Sy "+"], Ls [Sy "trace!", Nm 2], Ls [Sy "trace!", Nm 3]]);
+     okIs r (Nm 5) && traceEq r [Nm 1, Nm 2, Nm 3]) = true :=
+  Proofs.SeedLaws.C01.operator_effects_first
+
+/-- `(nope (trace! 1))`: an error, and no effect -/
+theorem unbound_operator_example :
+    (let r := runTop (Ls [Sy "nope", Ls [Sy "trace!", Nm 1]]); failed r && traceEq r []) = true :=
+  Proofs.SeedLaws.C01.unbound_operator_example
 
 end LispModel.Props.C01
